@@ -45,6 +45,16 @@ struct std_promise_int { int ss; };
 struct std_future_void { int ss; };
 struct std_future_int { int ss; };
 struct std_exception_ptr_exception_ptr { char vf_empty; };
+/* std::function<void(T&)> holding one of the abstract functors (a refactoring may store tasks in it) */
+struct std_function_void_vf_payload { _Bool set; };
+#define std_function_void_vf_payload__ctor__vf_fn_void_ref_T__void(f, g) ((f)->set = 1)
+#define std_function_void_vf_payload__ctor__vf_fn_void_rref_T__void(f, g) ((f)->set = 1)
+#define std_function_void_vf_payload__ctor__vf_fn_void_ref_T_(f, g) ((f)->set = 1)
+#define std_function_void_vf_payload__ctor__vf_fn_void_rref_T_(f, g) ((f)->set = 1)
+#define std_function_void_vf_payload__ctor_move(f, o) ((f)->set = (o)->set, (o)->set = 0)
+#define std_function_void_vf_payload__ctor_copy(f, o) ((f)->set = (o)->set)
+#define std_function_void_vf_payload__dtor(f) ((void)0)
+#define std_function_void_vf_payload__op_call__1(f, obj) vf_fun_call((f), (obj))
 struct std_pair_%(UPT)s_std_future_void { struct %(UPT)s first; struct std_future_void second; };
 struct std_pair_%(UPT)s_std_future_int { struct %(UPT)s first; struct std_future_int second; };
 #define %(VT)s__ctor(v) ((v)->size = 0, (v)->has_f = 0, (v)->fpos = 0, (v)->felem.p = 0, (v)->other.p = 0)
@@ -278,6 +288,11 @@ void vf_pt_call(int *ss, struct vf_payload *obj)
   vf_exc = 0; vf_user_threw = ut;
   if (g_runs < VF_BIG) g_runs = g_runs + 1;
   if (*ss == 1 && g_f_runs < VF_BIG) g_f_runs = g_f_runs + 1;
+}
+void vf_fun_call(struct std_function_void_vf_payload *f, struct vf_payload *obj)
+{
+  __CPROVER_assert(f->set, "[C06] an empty std::function is called (std::bad_function_call)");
+  (void)vf_user_effect(obj, 1);          /* may throw: nothing captures it */
 }
 void *vf_operator_new(unsigned long size)
 {
